@@ -1,5 +1,5 @@
 SPEC = {
-    'module': 'EV.Props.C11',
+    'module': 'EV.Props.C11all',
     'theorems': ['EV.HeaderCache.C11_header_safe', 'EV.HeaderCache.C11_header_current',
                  'EV.HeaderCache.C11_header_inv', 'EV.HeaderCache.ref_window', 'EV.HeaderCache.C11_header_proof',
                  'EV.HeaderCache.C11_header_refused', 'EV.HeaderCache.C11_header_never_wrong',
@@ -7,8 +7,16 @@ SPEC = {
                  'EV.HeaderCache.s9_init',
                  'EV.HeaderCache.F17_counterexample', 'EV.HeaderCache.F18_counterexample',
                  'EV.HeaderCache.F19_counterexample',
-                 'EV.Merkle.bar_root', 'EV.Merkle.bar_fold', 'EV.Merkle.tsc_spec', 'EV.Merkle.cache_correct'],
-    'suites': ['headercache', 'system'],
+                 'EV.Merkle.bar_root', 'EV.Merkle.bar_fold', 'EV.Merkle.tsc_spec', 'EV.Merkle.cache_correct',
+                 'EV.TxCache.seen_sound', 'EV.TxCache.C11_tx_safe', 'EV.TxCache.C11_tx_fold', 'EV.TxCache.C11_tx_unchanged',
+                 'EV.TxCache.C10_tx_hit_current', 'EV.TxCache.C10_tx_caches', 'EV.TxCache.ref_window',
+                 'EV.TxCache.C11_tx_never_wrong', 'EV.TxCache.C11_tx_outside', 'EV.TxCache.C11_tx_refused',
+                 'EV.TxCache.inv_step', 'EV.TxCache.dbInv_step', 'EV.TxCache.readTx_got', 'EV.TxCache.readHdr_got',
+                 'EV.TxCache.merkleBranch_ok', 'EV.TxCache.ch3_init',
+                 'EV.TxCache.stale_hit_counterexample', 'EV.TxCache.stale_hit_counterexample_merkle',
+                 'EV.TxCache.C11_1_counterexample', 'EV.TxCache.C10_1_counterexample', 'EV.TxCache.C10_3_counterexample',
+                 'EV.TxCache.tsc_sanity_counterexample', 'EV.TxCache.fifo_needed_counterexample'],
+    'suites': ['headercache', 'txcache', 'system'],
     'entry': {'system': 'run_proofs'},
     'design_ref': 'DESIGN.md §6 C11',
     'assumptions': [
@@ -27,10 +35,32 @@ SPEC = {
         'header proofs are always requested with tsc_format=False (DB.header_branch_and_root); cp_height/height are '
         'non-negative ints (session argument validation, C16)',
         'the header merkle root field of a block is the merkle root of its txids (validity of the daemon\'s blocks); '
-        'block hashes are SHA-256d of the headers (not modelled); which tx-hash list a transaction proof folds is '
-        'validated by suite system, not proved',
+        'block hashes are SHA-256d of the headers (not modelled)',
+        'atomicity granularity of the tx-cache model (EV.TxCache): event-loop code between two awaits is atomic '
+        '(_merkle_branch never suspends: tx_hashes_func returns without yielding); a worker-thread read '
+        '(DB.fs_tx_hashes_at_blockheight, DB.read_headers) is ONE atomic step that sees DB.state.height, DB.tx_counts and '
+        'the files as they are then; backup_block is cut into its two effects on readers (tx_counts.pop(), DB.state '
+        'lowered) and flush_dbs into its two (files written, DB.state raised) - orders measured on the source by suite '
+        'txcache - with arbitrary event-loop steps and reads in between.  Bytecode-level preemption INSIDE one read '
+        '(a complete back-out plus the advance of a new block between two statements of fs_tx_hashes_at_blockheight) '
+        'is not modelled',
+        'scheduling (Cfg.fifo): the _handle_chain_reorgs task, woken by backed_up_event.set(), runs before the block '
+        'processor advances the next block (asyncio ready queue is FIFO and run_with_lock creates a task, so the block '
+        'processor needs at least one more loop iteration).  Necessary (fifo_needed_counterexample); validated on a real '
+        'event loop with the real reorg_chain / advance_blocks / run_in_thread by the sched check of suite txcache',
+        'reorg_chain always reaches backed_up_event.set() after a back-out: its early return ("block ... is not tip") is '
+        'unreachable on a consistent DB (the hashes come from the DB\'s own headers) and is not modelled',
+        'LRU eviction only removes entries: modelled as evict events at any time (a superset of pylru)',
+        'transaction-proof requests are well-typed (height / position non-negative ints, tx hash 32 bytes: C16) and TSC '
+        'proofs are requested with txid_or_tx="txid" (with "tx" there is one more await - of the daemon - after the proof '
+        'is complete)',
     ],
-    'level_text': 'proof (header-proof part complete, transaction-proof part validated): the Lean model has ANY NUMBER of '
+    'level_text': 'proof (both halves; the transaction-proof half on EV.TxCache: any number of id_from_pos / get_merkle / '
+                  'get_tsc_merkle requests, each a program counter over its real awaits incl. the _reorg_count re-read loop, the by-height '
+                  'caches, LRU evictions, back-outs and advances cut into their effects on readers, the reorg task as a later event: '
+                  'C11_tx_safe - every answer is computed from the tx list of a block that was at that height on a chain visible '
+                  'between the request\'s start and its answer, composed with C12 in C11_tx_fold; C10_tx_caches at quiescence; '
+                  'counterexamples for the unfixed variants incl. F20).  Header half: the Lean model has ANY NUMBER of '
                   'concurrent block.header(height, cp) requests, each a program counter over every await of '
                   'MerkleCache.branch_and_root/_extend_to/_level_for with each read cut into issue / worker-thread '
                   'perform against the hashes visible then / deliver, back-outs cut into their two effects in the order '
